@@ -3,9 +3,9 @@ SPECIFICATION Spec
 CONSTANTS
   MaxReq = 4
   Universe <- UniverseCore
-  QMaxEv = 1
+  QMaxEv = 0
   PreLines = 1
-  PostLines = 1
+  PostLines = 0
   SeqUnderLock = TRUE
   RespondAfter = TRUE
   FwdHonoursTerm = TRUE
